@@ -261,6 +261,15 @@ func sequences(alphabet []string, maxLen int) [][]string {
 	return out
 }
 
+// budget is the wall-clock allowance of one worker process: generous multiples of the measured
+// run time; running out of it yields exhaustive:false, never a violation.
+func budget(r *vk.Run) time.Duration {
+	if r.Thorough() {
+		return 25 * time.Minute
+	}
+	return 4 * time.Minute
+}
+
 func main() {
 	r := vk.Start("C10", "model_checking")
 	scenarios := []e1.Scenario{}
@@ -337,7 +346,10 @@ func main() {
 			scenarios = append(scenarios, scenario(fmt.Sprintf("cycles/%v/stop=%d/unbounded", seq, stop), seq, stop, 1, -1, 2, false))
 		}
 	}
-	e1.RunAll(r, scenarios, 0)
+	if r.Thorough() {
+		e1.PerScenario = 6 * time.Minute
+	}
+	e1.RunAll(r, scenarios, budget(r))
 	if r.Worker == "" && r.Replay == "" {
 		e1.Conformance(r)
 	}
